@@ -5,6 +5,10 @@ pub mod common;
 
 #[cfg(kani)]
 mod c03;
+#[cfg(kani)]
+mod c08;
+#[cfg(kani)]
+mod c14;
 
 /// runner self-test: a harness that must FAIL and replay natively (never part of a property)
 #[cfg(kani)]
